@@ -203,7 +203,7 @@ func Analyze(tr *Trace) *Analyzer {
 				expectRsp = true
 				expectAccepted = true
 			}
-		case "mod", "del", "urep":
+		case "mod", "del", "urep", "dldr":
 			if s, ok := a.byUP[st.UP]; ok && st.UP != 0 {
 				target = s
 				targets[s.up] = true
@@ -211,7 +211,7 @@ func Analyze(tr *Trace) *Analyzer {
 					ending[s.up] = true
 				}
 			}
-			if op.K != "urep" {
+			if op.K != "urep" && op.K != "dldr" {
 				expectRsp = true
 				expectAccepted = target != nil
 			}
@@ -333,6 +333,16 @@ func Analyze(tr *Trace) *Analyzer {
 							}
 						}
 						if upseid != 0 {
+							// a (re-)issued SEID starts without anything buffered under it
+							for _, ps := range st.Post.Slots {
+								if ps != nil && ps.LocalID == upseid {
+									for pdr, n := range ps.Q {
+										if n > 0 {
+											a.add("C05", "new-session-inherits-buffered-packets", fmt.Sprintf("new session %#x starts with %d packets queued for PDR %d", upseid, n, pdr), i)
+										}
+									}
+								}
+							}
 							s := newMSess(op.Sess, op.NodeID, op.CP, upseid)
 							a.sess[op.Sess] = s
 							a.byUP[upseid] = s
@@ -356,7 +366,7 @@ func Analyze(tr *Trace) *Analyzer {
 			noEffect = !(st.Rsp != nil && accepted)
 		case "assoc":
 			noEffect = st.Rsp == nil
-		case "urep":
+		case "urep", "dldr":
 			noEffect = target == nil
 		}
 		if noEffect {
@@ -491,6 +501,29 @@ func Analyze(tr *Trace) *Analyzer {
 						}
 						delete(target.req[c.Kind], c.ID)
 					}
+				}
+			}
+		case "dldr":
+			if target != nil {
+				n := 0
+				for k, d := range st.Reports {
+					if d.M == nil || len(d.M.FindAll(TDLDataRep)) == 0 {
+						continue
+					}
+					n++
+					if st.RepAt[k] != target.node {
+						a.add("C13", "dldr-to-wrong-node", fmt.Sprintf("downlink data report arrived at SMF %d, session belongs to SMF %d", st.RepAt[k], target.node), i)
+					}
+					if d.M.SEID != target.cp {
+						a.add("C13", "dldr-seid", fmt.Sprintf("downlink data report header SEID %#x, peer's SEID is %#x", d.M.SEID, target.cp), i)
+					}
+				}
+				want := 0
+				if op.Act&8 != 0 {
+					want = 1
+				}
+				if n != want {
+					a.add("C13", "dldr-count", fmt.Sprintf("%d downlink data reports for a notification with action %#x", n, op.Act), i)
 				}
 			}
 		case "urep":
